@@ -140,20 +140,24 @@ let parse_case (par : n) (case : string) (runs : rec_run list) : action * node l
   let action = match next () with "bench" -> ABench | "test" -> ATest | "list" -> AList | a -> failwith ("action " ^ a) in
   let _prof = next () in
   let sc_of s = match s with "-" | "o" -> None | "d" -> Some None | k -> Some (Some (n_of_string k)) in
-  let rec node () : node option =
+  (* [inh]: some enclosing group sets ignore = true ("<sc>!"); a benchmark's own token decides first:
+     "1" = ignore, "f" = ignore = false, "0" = unset: the innermost set value wins *)
+  let rec node (inh : bool) : node option =
     match next () with
     | "G" ->
       let name = pct_decode (next ()) in
-      let sc = sc_of (next ()) in
+      let sct = next () in
+      let gi = String.length sct > 0 && sct.[String.length sct - 1] = '!' in
+      let sc = sc_of (if gi then String.sub sct 0 (String.length sct - 1) else sct) in
       let k = int_of_string (next ()) in
-      let kids = List.init k (fun _ -> ()) |> List.map (fun () -> node ()) |> List.filter_map (fun x -> x) in
+      let kids = List.init k (fun _ -> ()) |> List.map (fun () -> node (inh || gi)) |> List.filter_map (fun x -> x) in
       if kids = [] then None else Some (Group (name, sc, ord kids))
     | "B" ->
       let ids = next () in
       let id = n_of_string ids in
       let name = pct_decode (next ()) in
       let sc = sc_of (next ()) in
-      let ign = next () = "1" in
+      let ign = (match next () with "1" -> true | "f" -> false | _ -> inh) in
       let a = next () in
       let args_all = if a = "P" then None else begin
           let k = int_of_string (String.sub a 1 (String.length a - 1)) in
@@ -195,7 +199,7 @@ let parse_case (par : n) (case : string) (runs : rec_run list) : action * node l
     | k -> failwith ("node kind " ^ k) in
   if next () <> "N" then failwith "N";
   let k = int_of_string (next ()) in
-  let t = ord (List.filter_map (fun x -> x) (List.map (fun () -> node ()) (List.init k (fun _ -> ())))) in
+  let t = ord (List.filter_map (fun x -> x) (List.map (fun () -> node false) (List.init k (fun _ -> ())))) in
   let remap id i =
     match Hashtbl.find_opt kept_tbl (string_of_n id) with
     | Some karr when i < Array.length karr -> karr.(i)
